@@ -279,9 +279,6 @@ func (tr *tracer) do(act Act) Outcome {
 	argFields(ev, act, func() map[string]int64 { return tr.renewalFields(out) })
 	o, ok := tr.observe()
 	ev["obs"], ev["st"] = ok, o
-	if strings.HasSuffix(tr.rpc[act.S], "-dup") && act.Op == "BeginRepl" {
-		ev["hint"] = "dup"
-	}
 	if ok {
 		tr.flag(o)
 		switch {
